@@ -128,6 +128,9 @@ fn run_shard_prefix(case: &Case, args: &[String], engine_for: EngineFor) -> Outc
             let o = eng.run(&c);
             if last {
                 out = o;
+                if let Some(v) = out.violation.as_mut() {
+                    v.signature.push_str(" [needs the worker path before it]");
+                }
                 if out.violation.is_none() {
                     match isolated_fingerprint(&c, args) {
                         Some(f) if f != format!("{:016x}", out.fingerprint) => out.violate(
